@@ -71,6 +71,50 @@ fn history_pairs(acc: &mut Acc) {
     }
 }
 
+/// Long forms of the elements whose length the grammar leaves open: a year of four *or more* digits (zero padded), a run
+/// of white space, a comment nested to any depth, a long comment, many comments. Every length up to 300 and the lengths
+/// around 2^16 (a count kept in a narrow integer, or a length-limited scan, shows at one of them).
+fn long_forms(acc: &mut Acc) {
+    let want = Some((1_057_049_557i64, 7200));
+    let lens: Vec<usize> = (1..=300usize).chain(65_530..=65_540).collect();
+    let one = |acc: &mut Acc, t: &str, what: &dyn Fn() -> String| {
+        acc.transitions += 2;
+        let got = guard(|| DateTime::parse_from_rfc2822(t).ok().map(|d| (d.timestamp(), d.offset().local_minus_utc())));
+        let got2 = guard(|| parse_via_item(t).ok().map(|d| (d.timestamp(), d.offset().local_minus_utc())));
+        if got != Ok(want) || got2 != Ok(want) {
+            acc.violation("parse_from_rfc2822:long-form", format!("DateTime::parse_from_rfc2822({})", what()), format!("{:?}", want), format!("{:?} / {:?}", got, got2));
+        } else {
+            acc.hit(ACCEPT);
+        }
+    };
+    for &n in &lens {
+        let t = format!("Tue, 1 Jul {}2003 10:52:37 +0200", "0".repeat(n));
+        one(acc, &t, &|| format!("\"Tue, 1 Jul <{} zeros>2003 10:52:37 +0200\"", n));
+        for pos in 0..5usize {
+            let mut parts = vec!["Tue,", "1", "Jul", "2003", "10:52:37", "+0200"].into_iter();
+            let mut t = String::from(parts.next().unwrap());
+            for (i, p) in parts.enumerate() {
+                if i == pos {
+                    t.push_str(&" ".repeat(n));
+                } else {
+                    t.push(' ');
+                }
+                t.push_str(p);
+            }
+            one(acc, &t, &|| format!("the standard form with {} spaces at position {}", n, pos));
+        }
+        let t = format!("Tue, 1 Jul 2003 10:52:37 +0200 {}{}", "(".repeat(n), ")".repeat(n));
+        one(acc, &t, &|| format!("the standard form followed by a comment nested {} deep", n));
+        let t = format!("Tue, 1 Jul 2003 10:52:37 +0200 {}x{}", "(a".repeat(n), "\\))".repeat(n));
+        one(acc, &t, &|| format!("the standard form followed by a comment nested {} deep with text and escapes at every level", n));
+        let t = format!("Tue, 1 Jul 2003 10:52:37 +0200 ({})", "x".repeat(n));
+        one(acc, &t, &|| format!("the standard form followed by a comment of {} characters", n));
+        let t = format!("Tue, 1 Jul 2003 10:52:37 +0200{}", " (a)".repeat(n));
+        one(acc, &t, &|| format!("the standard form followed by {} comments", n));
+    }
+    acc.traces += 1;
+}
+
 fn case_variant(s: &str, k: usize) -> String {
     match k {
         0 => s.to_string(),
@@ -352,6 +396,9 @@ fn main() {
         let mut buf = String::with_capacity(64);
         if u == 0 {
             history_pairs(acc);
+        }
+        if u == 1 {
+            long_forms(acc);
         }
         if u < n_out {
             let y0 = u as i64 * YCH;
